@@ -5,6 +5,7 @@ import OutrankModel.Lemmas.Sampling
 Core Lean. `garb` is whatever earlier allocations left in freed memory: universally quantified.
 -/
 namespace MI
+open Smp
 variable {α : Type}
 
 /-- C04-1: for EVERY content of the uninitialised buffer, the (repaired) sampling never performs an uninitialised or
